@@ -29,14 +29,29 @@ func main() {
 	shimCopy := filepath.Join(out, "vsync.go")
 	die(os.WriteFile(shimCopy, b, 0644))
 	repl[filepath.Join(repo, "verifshim", "vsync", "vsync.go")] = shimCopy
-	// every log statement of the library becomes a scheduling point: a file ADDED to hc's log package
-	if ly, err := os.ReadFile(filepath.Join(filepath.Dir(filepath.Dir(shim)), "logyield", "logyield.go.txt")); err == nil {
-		if _, err := os.Stat(filepath.Join(repo, "log")); err == nil {
-			lyCopy := filepath.Join(out, "log_verif_yield.go")
-			die(os.WriteFile(lyCopy, ly, 0644))
-			repl[filepath.Join(repo, "log", "verif_yield_overlay.go")] = lyCopy
+	// files ADDED to packages of the library (overlay/add/<package dir>/<name>.go.txt; "_root" = the module root):
+	// log statements as scheduling points, a listener-less server and the multiplexer of a transport not started
+	addRoot := filepath.Join(filepath.Dir(filepath.Dir(shim)), "add")
+	filepath.Walk(addRoot, func(p string, info os.FileInfo, err error) error {
+		if err != nil || info.IsDir() || !strings.HasSuffix(p, ".go.txt") {
+			return nil
 		}
-	}
+		rel, _ := filepath.Rel(addRoot, filepath.Dir(p))
+		pkgDir := filepath.Join(repo, rel)
+		if rel == "_root" {
+			pkgDir = repo
+		}
+		if _, err := os.Stat(pkgDir); err != nil {
+			return nil
+		}
+		b, err := os.ReadFile(p)
+		die(err)
+		name := strings.TrimSuffix(filepath.Base(p), ".txt")
+		cp := filepath.Join(out, "add_"+strings.ReplaceAll(rel, "/", "_")+"_"+name)
+		die(os.WriteFile(cp, b, 0644))
+		repl[filepath.Join(pkgDir, name)] = cp
+		return nil
+	})
 	n := 0
 	{
 		// the package the inserted scheduling points call (always present: cmd/vsched links the harness that sets its hook)
